@@ -64,6 +64,9 @@ def run(rep):
             runs += [["consume", lib, ch, "handles=1"], ["consume", lib, ch, "handles=2"], ["consume", lib, ch, "handles=1", "pending=%d" % (ch or 3)]]
         if rep.tier != "quick":
             runs.append(["consume", lib, 0, "handles=4"])
+    # the hand-over happens after the earlier calls however long they take
+    runs += [["consume", lib, ch, "handles=1", "pending=%d" % (ch or 2), "holdms=%d" % (2600 if rep.tier == "quick" else 7000)]
+             for lib in (("std",) if rep.tier == "quick" else gen_impl.LIBS) for ch in ((0, 2) if rep.tier == "quick" else (0, 1, 2))]
     rt_common.impl_side(rep, PID, runs, lambda a, d: probe.oracle_consume(d))
 
 
